@@ -295,6 +295,19 @@ Proof.
   repeat split; auto. intros ns Hns. rewrite C. auto.
 Qed.
 
+Corollary rmax_counts_capped fuel exp L :
+  trainR fuel exp = Some L ->
+  forall s a, (s < nS)%nat -> (a < nA)%nat ->
+    cntf L s a = length (firstm exp s a) /\
+    length (firstm exp s a) = Nat.min m (length (hits exp s a)) /\
+    rwf L s a = rsum (firstm exp s a) /\
+    (forall ns, (ns < nS)%nat -> trf L s a ns = ncount (firstm exp s a) ns).
+Proof.
+  intros Ht s a Hs Ha. destruct (train_counts_capped fuel exp L Ht s a Hs Ha) as (A & B & C).
+  repeat split; auto. apply firstm_length.
+Qed.
+
+
 (* ---------------------------------------------------------------------------------- *)
 (* Part 2: the learner invariant                                                        *)
 (* ---------------------------------------------------------------------------------- *)
@@ -601,10 +614,10 @@ Qed.
 Theorem rmax_unknown_exact fuel exp L :
   Forall valid_step exp -> trainR fuel exp = Some L ->
   forall s a, (s < nS)%nat -> (a < nA)%nat -> (cntf L s a < m)%nat ->
-  qf L s a = qf initR s a.
+  qf L s a = qf initR s a /\ qf L s a = rmax / (1 - gamma).
 Proof.
-  intros Hv H s a Hs Ha Hlt. rewrite init_q by auto.
-  apply (inv_unk L (train_inv fuel exp L Hv H)); auto.
+  intros Hv H s a Hs Ha Hlt. rewrite init_q by auto. rewrite <- q0_val.
+  split; apply (inv_unk L (train_inv fuel exp L Hv H)); auto.
 Qed.
 
 Theorem rmax_bellman_known fuel exp L :
@@ -797,3 +810,15 @@ Qed.
 End Cert.
 
 End Theory.
+
+(* the mirror term the harness evaluates: [train] plus a side flag for the action-selection rule *)
+Lemma train_act_fst {T} {NT : Num T} nS nA m (g rmax tol : T) fuel exp :
+  fst (@train_act T NT nS nA m g rmax tol fuel exp) = @train T NT nS nA m g rmax tol fuel exp.
+Proof.
+  unfold train_act, train, train_from.
+  generalize (Some (@init_learner T NT nS nA g rmax)) as oL. generalize true as b.
+  induction exp as [|e exp IH]; intros b oL; [reflexivity|].
+  simpl. destruct oL as [L|].
+  - unfold obs_act at 2. simpl. destruct e as [[[s a] r] ns]. apply IH.
+  - unfold obs_act at 2. simpl. apply IH.
+Qed.
